@@ -7,6 +7,8 @@ CONSTANTS Configs = {}
   LoadOnlyOwnTargets = FALSE
   MatchWholeSecond = FALSE
   DedupIgnoresSensor = FALSE
+  FreezeRoster = FALSE
+  StampCachedEpoch = FALSE
   CrashOnDuplicate = FALSE
   KeepDuplicates = FALSE
   CreateMissingTables = FALSE
@@ -14,4 +16,5 @@ INVARIANT ImportFaithful
 INVARIANT NoStaleState
 INVARIANT ObsReachFilter
 INVARIANT RunContinues
+INVARIANT OutputFaithful
 PROPERTY ImporterReadOnly
